@@ -83,6 +83,22 @@ Theorem C17_internal_error_unreachable : forall userfunc v path pk ki d tr,
 Proof. exact visit_code. Qed.
 Print Assumptions C17_internal_error_unreachable.
 
+(* Every argument of json_c_visit.  [json_c_visit_ff userfunc v future_flags] is the function
+   with its reserved argument: whatever is passed there, the calls (in particular the flags the
+   user function sees: 0 on a first call, JSON_C_VISIT_SECOND on a second one) and the result
+   are those of [json_c_visit].  (userarg is handed through to every call; in the model it is
+   part of the closure [userfunc], the C side records its identity at every call.) *)
+Theorem C17_visit_ignores_future_flags : forall userfunc v future_flags,
+  json_c_visit_ff userfunc v future_flags = json_c_visit userfunc v.
+Proof. exact visit_ignores_future_flags. Qed.
+Print Assumptions C17_visit_ignores_future_flags.
+
+Theorem C17_flags_are_0_or_second : forall userfunc v future_flags e,
+  In e (fst (json_c_visit_ff userfunc v future_flags)) ->
+  ev_flags e = 0 \/ ev_flags e = JSON_C_VISIT_SECOND.
+Proof. exact flags_are_0_or_second. Qed.
+Print Assumptions C17_flags_are_0_or_second.
+
 (* Several traversals.  The visitor keeps no state between or outside its activations: in a
    program of traversals — a callback starting another traversal (same or other tree, other
    user function and argument) before it returns, nested to any depth, or traversals following
@@ -97,8 +113,8 @@ Proof. exact run_progs_conforms. Qed.
 Print Assumptions C17_consecutive_traversals_independent.
 
 (* the outer traversal is the traversal without the nested ones *)
-Theorem C17_outer_unaffected : forall v codes nested,
-  hd None (run_prog (Prog v codes nested)) = Some (json_c_visit (sched_fun codes) v).
+Theorem C17_outer_unaffected : forall v ff codes nested,
+  hd None (run_prog (Prog v ff codes nested)) = Some (json_c_visit (sched_fun codes) v).
 Proof. exact outer_unaffected. Qed.
 Print Assumptions C17_outer_unaffected.
 
@@ -136,10 +152,11 @@ Theorem C17_corollaries_nonvacuous :
 Proof. exact corollaries_nonvacuous. Qed.
 
 (* the callback of the first example, traversing [null,true] (answers CONTINUE, ERROR) from
-   inside its third call; a traversal attached to a ninth call, which never happens *)
+   inside its third call (future_flags 2 and -1: the flags the callbacks see stay 0 / 2); a
+   traversal attached to a ninth call, which never happens *)
 Theorem C17_nonvacuous_nested :
-  run_prog (Prog demo_tree [0; 0; 767; 0; 7547; 7867]
-              [(3, Prog (JArr [JNull; JBool true]) [0; -1] []); (9, Prog JNull [] [])]) =
+  run_prog (Prog demo_tree 2 [0; 0; 767; 0; 7547; 7867]
+              [(3, Prog (JArr [JNull; JBool true]) (-1) [0; -1] []); (9, Prog JNull 0 [] [])]) =
   [ Some ([ mkev [] 0 PNone KNone 0;
             mkev [0] 0 PObj (KKey [97]) 1;
             mkev [0; 0] 0 PArr (KIdx 0) 2;
